@@ -74,8 +74,8 @@ ASSUMPTIONS = [
     "an exception that escapes run() is not itself a violation (the stage did not run); only the call log is judged then",
     "MAPK preset stages cannot be observed from inside (they are the library's lambdas): they are judged on the "
     "input/output signals of the returned stage results against a re-statement of the preset's three functions",
-    "observer callbacks are outside the statement's quantifier: with a raising observer only the call-log clauses "
-    "(fail_closed, halt) are judged, not what the report says about the stage whose observer raised",
+    "an exception raised by an on_stage_complete / on_cascade_complete observer is the caller's own and is never itself "
+    "a violation; a report that is nevertheless returned is judged like any other",
     "threads family: every clause is per run() call (run() keeps all per-run state in locals; the statistics counters "
     "on the object are not judged); pre-emption granularity is the source line",
 ]
@@ -464,7 +464,10 @@ def _judge(w, tag, signal0, out):
     log = [e[1:] for e in w.log if e[0] == tag]          # (stage, role, signal, outcome, returned)
     mapk = cfg.get("family") == "mapk"
     res = out.value if out.kind == "ok" else None
-    results_judged = not w.observer_raised               # see ASSUMPTIONS
+    # an observer's exception is the caller's own, but what the report says must still be right afterwards
+    # (same rule as for the observers of C04/C09): success only with every stage completed in order, and then
+    # final_output is the composition
+    results_judged = True
     if res is None:
         k.probe("run_raised")
         k.ev("result", out.brief())
